@@ -96,8 +96,9 @@ Proof. intros H. unfold enc_frac. rewrite len_be_enc. unfold frac_bytes. lia. Qe
 Section Temporal.
 Variable ffmt : Z -> Z -> bytes.
 Variable tz : Z -> Z.
+Variable efmt : Z -> bytes.
 Variable jsonp : bytes -> res bytes.
-Notation cell_ok := (cell_ok ffmt tz jsonp).
+Notation cell_ok := (cell_ok ffmt tz efmt jsonp).
 
 Theorem date_ok nd uns y m d : wf_value (TDate nd) uns (VDate y m d) = true -> cell_ok (TDate nd) uns (VDate y m d).
 Proof.
